@@ -302,6 +302,18 @@ def applyFn (f : Fn) (a b : List Int ⊕ Int) : List Int :=
   | .inr c, .inl y => y.map (fun v => f.app c v)
   | .inr c, .inr d => [f.app c d]
 
+/-- evaluating one argument of a `ComputationNode`: constants are passed through, node arguments
+are asked for their buffer (`rec` = `_get_buffer(i)` of the argument) -/
+def evalArg (rec : GState → Nat → Except GErr (GState × List Int)) (n : Nat) (st : GState) :
+    Arg → Except GErr (GState × (List Int ⊕ Int))
+  | .const c => .ok (st, .inr c)
+  | .node m =>
+    if m < n then
+      match rec st m with
+      | .ok (st', v) => .ok (st', .inl v)
+      | .error e => .error e
+    else .error .bad
+
 /-- `node._get_buffer(i)`; `fuel` bounds the recursion depth (node index + 1 suffices) -/
 def getBuffer (g : List NodeDef) : Nat → GState → Nat → Nat → Except GErr (GState × List Int)
   | 0, _, _, _ => .error .bad
@@ -318,24 +330,14 @@ def getBuffer (g : List NodeDef) : Nat → GState → Nat → Nat → Except GEr
       if !idxOk s.idx i then .error .assertion
       else if !needsAdvance s.idx i then .ok (st, s.cur)
       else
-        let evalArg (st : GState) (x : Arg) : Except GErr (GState × (List Int ⊕ Int)) :=
-          match x with
-          | .const c => .ok (st, .inr c)
-          | .node m =>
-            if m < n then
-              match getBuffer g fuel st m i with
-              | .ok (st', v) => .ok (st', .inl v)
-              | .error e => .error e
-            else .error .bad
-        match evalArg st a with
+        match evalArg (fun st m => getBuffer g fuel st m i) n st a with
         | .error e => .error e
         | .ok (st1, va) =>
-          match evalArg st1 b with
+          match evalArg (fun st m => getBuffer g fuel st m i) n st1 b with
           | .error e => .error e
           | .ok (st2, vb) =>
-            let v := applyFn f va vb
             match st2[n]? with
-            | some s2 => .ok (st2.set n { s2 with idx := some i, cur := v }, v)
+            | some s2 => .ok (st2.set n { s2 with idx := some i, cur := applyFn f va vb }, applyFn f va vb)
             | none => .error .bad
     | _, _ => .error .bad
 
@@ -376,6 +378,22 @@ def computeGraph (g : List NodeDef) (root : Nat) (fuel : Nat) : Except GErr (Lis
     | .ok (vs, st') => .ok (vs.flatten, st')
     | .error e => .error e
 
+/-- value of one argument, given the values of the nodes constructed earlier -/
+def argValWith (rec : Nat → Option (List Int)) (n : Nat) : Arg → Option (List Int ⊕ Int)
+  | .const c => some (.inr c)
+  | .node m => if m < n then (rec m).map .inl else none
+
+/-- value of node `n` on the `i`-th buffers of the streams (what `_get_buffer(i)` must return) -/
+def valAt (g : List NodeDef) (i : Nat) : Nat → Nat → Option (List Int)
+  | 0, _ => none
+  | fuel + 1, n =>
+    match g[n]? with
+    | some (.stream cs) => cs[i]?
+    | some (.comp f a b) =>
+      (argValWith (valAt g i fuel) n a).bind (fun va =>
+        (argValWith (valAt g i fuel) n b).map (fun vb => applyFn f va vb))
+    | none => none
+
 /-- `StreamNode.compute` as shipped: `np.concatenate(list(self._stream))`, i.e. what is LEFT of the
 iterator after the constructor pulled buffer 0 (`ValueError` = none when nothing is left).
 Repaired code uses `get_iter` like every other node (`computeGraph`). -/
@@ -391,13 +409,8 @@ def evalMem (g : List NodeDef) : Nat → Nat → Option (List Int)
     match g[n]? with
     | some (.stream cs) => some cs.flatten
     | some (.comp f a b) =>
-      let ev (x : Arg) : Option (List Int ⊕ Int) :=
-        match x with
-        | .const c => some (.inr c)
-        | .node m => if m < n then (evalMem g fuel m).map .inl else none
-      match ev a, ev b with
-      | some va, some vb => some (applyFn f va vb)
-      | _, _ => none
+      (argValWith (evalMem g fuel) n a).bind (fun va =>
+        (argValWith (evalMem g fuel) n b).map (fun vb => applyFn f va vb))
     | none => none
 
 end C11
